@@ -1,4 +1,5 @@
 import Proofs.Lemmas.LowerMain
+import Proofs.Lemmas.LowerSearch
 /-!
 # ES specification semantics ⇒ IR semantics (the step "ES AST ⇒ what the parser builds")
 
@@ -25,10 +26,14 @@ quantifiers with the empty check and the capture reset, numeric back-references 
 back-references that resolve to one group (stage A); class escapes `\d \D \s \S \w \W`, property
 escapes `\p{…}` / `\P{…}` (the tables are the specification's by `Proofs/C11.lean`), legacy and
 `u`-mode brackets, `v`-mode class set expressions with union / intersection / subtraction / nested
-and complemented classes (`CodePointSet` arithmetic by `Proofs/C12.lean`) (stage B) — all *without*
-case-insensitive matching.  Not yet covered (the statement is kept visible below): `i` in `u`/`v`
-mode (stage C), `\q{…}` strings, properties of strings and named back-references to duplicated
-names (stage D).  Legacy (non-`u`/`v`) `i` is excluded on purpose: the crate is known to differ from
+and complemented classes (`CodePointSet` arithmetic by `Proofs/C12.lean`) (stage B); and, with `i`
+under `u` or `v` (stage C, `Canonicalize` = Unicode 17 simple case folding by `Proofs/C10.lean`):
+literal characters (`unfold_char`), `.`, `\b \B`, case-insensitive back-references
+(`backref_icase`), class escapes, property escapes, brackets under `iu` (`add_icase_code_points`
+once, at the end) and class set expressions under `iv` (the specification's folded CharSets against
+`close_class_set_operand`).  Not yet covered (the statement is kept visible below): `\q{…}` strings,
+properties of strings and named back-references to duplicated names (stage D).  The input's `unicode` flag must be the pattern's
+(`inp.unicode = (f.u || f.v)`, as `Proofs/Keystone.lean` assumes too).  Legacy (non-`u`/`v`) `i` is excluded on purpose: the crate is known to differ from
 the specification there (finding F8).
 -/
 namespace Regress.Lower
@@ -81,9 +86,11 @@ UTF-8 input, every code point index `i ≤ |cs|` and every fuel:
     AttemptAgrees cs (ES.matchAt cs.toArray a (ES.RER.ofFlags f (ES.countParens a)) fuel i)
       (firstMatch inp r.node (Utf8.off cs i))
 
-`lower_attempt_partial` below proves it with the additional hypothesis `supported … = true`
-(stages A and B) and for the AST in the normal form of its pattern text (`normalize a`; the
-generator only produces normal forms: `normalize a = a`, see `lower_attempt_partial_nf`).
+`lower_attempt_ast_partial` below proves it with the additional hypothesis `supported … = true` on the
+normal form `normalize a` of the AST (what the pattern text can express; `toIR` lowers the normal
+form, and the specification's Matcher of `a` and of `normalize a` is the same:
+`Proofs/Lemmas/LowerNorm.lean`).  `lower_search_partial` lifts it to the search of
+`RegExpBuiltinExec` against `IR.semFind`.
 Validity of the AST is not needed as a hypothesis: `toIR f a = .ok r` already implies the part of it
 that matters (back-references in range, quantifier bounds in order, names resolvable).
 -/
@@ -91,14 +98,15 @@ that matters (back-references in range, quantifier bounds in order, names resolv
 /-- **ES specification ⇒ IR semantics, one anchored attempt (stages A and B).** -/
 theorem lower_attempt_partial {f : ES.Flags} {a : ES.Node} {r : Regex} {inp : Input} {cs : List Nat}
     (hsup : supported (normalize a) (irFlags f) (normalize a) = true)
-    (hir : toIR f a = .ok r) (ht : Utf8Text inp cs) (i : Nat) (hi : i ≤ cs.length) (fuel : Nat) :
+    (hir : toIR f a = .ok r) (ht : Utf8Text inp cs) (hiu : inp.unicode = (f.u || f.v)) (i : Nat)
+    (hi : i ≤ cs.length) (fuel : Nat) :
     AttemptAgrees cs
       (ES.matchAt cs.toArray (normalize a) (ES.RER.ofFlags f (ES.countParens (normalize a))) fuel i)
       (firstMatch inp r.node (Utf8.off cs i)) := by
   obtain ⟨body, hbody, hcases⟩ := toIR_inv hir
   obtain ⟨body', hrv, hsim, _, hng, hid⟩ :=
     lower_node ht (normalize a) (ES.countParens (normalize a)) (Nat.le_refl _) (normalize a) (irFlags f)
-      (ES.RER.ofFlags f (ES.countParens (normalize a))) 0 false body (FlagsRel.ofFlags f _) hsup hbody
+      (ES.RER.ofFlags f (ES.countParens (normalize a))) 0 false body (FlagsRel.ofFlags f _) hiu hsup hbody
       (by omega)
   have hnode : r.node = .cat [body', .goal] := by
     rcases hcases with ⟨_, b', hb', hn⟩ | ⟨hlb, hn⟩
@@ -129,12 +137,42 @@ theorem lower_attempt_partial {f : ES.Flags} {a : ES.Node} {r : Regex} {inp : In
 produces is). -/
 theorem lower_attempt_partial_nf {f : ES.Flags} {a : ES.Node} {r : Regex} {inp : Input} {cs : List Nat}
     (hnf : normalize a = a) (hsup : supported a (irFlags f) a = true)
-    (hir : toIR f a = .ok r) (ht : Utf8Text inp cs) (i : Nat) (hi : i ≤ cs.length) (fuel : Nat) :
+    (hir : toIR f a = .ok r) (ht : Utf8Text inp cs) (hiu : inp.unicode = (f.u || f.v)) (i : Nat)
+    (hi : i ≤ cs.length) (fuel : Nat) :
     AttemptAgrees cs (ES.matchAt cs.toArray a (ES.RER.ofFlags f (ES.countParens a)) fuel i)
       (firstMatch inp r.node (Utf8.off cs i)) := by
-  have := lower_attempt_partial (f := f) (a := a) (r := r) (by rw [hnf]; exact hsup) hir ht i hi fuel
+  have := lower_attempt_partial (f := f) (a := a) (r := r) (by rw [hnf]; exact hsup) hir ht hiu i hi fuel
   rw [hnf] at this
   exact this
+
+/-- **The same about the AST itself** (not its normal form): `normalize` does not change the
+specification's Matcher (`matchAt_normalize`).  `supported` is still asked of the normal form, which
+is what `toIR` lowers. -/
+theorem lower_attempt_ast_partial {f : ES.Flags} {a : ES.Node} {r : Regex} {inp : Input} {cs : List Nat}
+    (hsup : supported (normalize a) (irFlags f) (normalize a) = true)
+    (hir : toIR f a = .ok r) (ht : Utf8Text inp cs) (hiu : inp.unicode = (f.u || f.v)) (i : Nat)
+    (hi : i ≤ cs.length) (fuel : Nat) :
+    AttemptAgrees cs (ES.matchAt cs.toArray a (ES.RER.ofFlags f (ES.countParens a)) fuel i)
+      (firstMatch inp r.node (Utf8.off cs i)) := by
+  rw [← matchAt_normalize]
+  exact lower_attempt_partial hsup hir ht hiu i hi fuel
+
+/-- The outcome of `RegExpBuiltinExec`'s search (`ES.esExec`: `noMatch`, `matched s e captures` in
+code point indices, or `outOfFuel`) against `IR.semFind` (start byte offset and final state). -/
+abbrev SearchAgrees (cs : List Nat) (r : ES.ExecResult) (q : Option (Nat × St)) : Prop := SearchRel cs r q
+
+/-- **ES specification ⇒ IR semantics, the leftmost search.**  `RegExpBuiltinExec` from code point
+index `start` and `semFind` from the corresponding byte offset find the same match (same start,
+same end, same captures), or both find none — unless the specification runs out of fuel. -/
+theorem lower_search_partial {f : ES.Flags} {a : ES.Node} {r : Regex} {inp : Input} {cs : List Nat}
+    (hsup : supported (normalize a) (irFlags f) (normalize a) = true)
+    (hir : toIR f a = .ok r) (ht : Utf8Text inp cs) (hiu : inp.unicode = (f.u || f.v)) (start : Nat)
+    (hs : start ≤ cs.length) (fuel : Nat) :
+    SearchAgrees cs (ES.esExec f a cs.toArray start fuel) (semFind inp r.node (Utf8.off cs start)) := by
+  rw [ES.esExec_eq]
+  simp only [SearchAgrees, semFind, List.size_toArray]
+  apply search_agrees ht r.node _ (fun j hj => lower_attempt_ast_partial hsup hir ht hiu j hj fuel)
+    (cs.length + 1 - start) start _ hs (by omega) (Nat.le_refl _)
 
 /-- Read-out of `AttemptAgrees`: a definite failure of the specification is a failure of the IR
 semantics, a success is a success at the corresponding byte offset with corresponding captures. -/
@@ -181,7 +219,7 @@ example : ∃ r, toIR {} exAst = .ok r ∧
   cases h : toIR {} exAst with
   | error e => rw [h] at hok; cases hok
   | ok r =>
-    exact ⟨r, rfl, lower_attempt_partial_nf exAst_nf exAst_supported h exInp_text 1 (by decide) 10⟩
+    exact ⟨r, rfl, lower_attempt_partial_nf exAst_nf exAst_supported h exInp_text rfl 1 (by decide) 10⟩
 
 /-- `/[^a-c\d]\P{Lu}[\w--[a-f]]/v`-like patterns: a `u`-mode bracket with a range and a class escape,
 a negated property, and (under `v`) a subtraction with a nested class. -/
@@ -204,16 +242,50 @@ example (r : Regex) (h : toIR { u := true } exAstU = .ok r) (fuel : Nat) :
     AttemptAgrees [0x7A, 0x61, 0x20] (ES.matchAt #[0x7A, 0x61, 0x20] exAstU
       (ES.RER.ofFlags { u := true } (ES.countParens exAstU)) fuel 0)
       (firstMatch exInpU r.node (Utf8.off [0x7A, 0x61, 0x20] 0)) :=
-  lower_attempt_partial_nf exAstU_nf exAstU_supported h exInpU_text 0 (by decide) fuel
+  lower_attempt_partial_nf exAstU_nf exAstU_supported h exInpU_text rfl 0 (by decide) fuel
 
 example (r : Regex) (h : toIR { v := true } exAstV = .ok r) (fuel : Nat) :
     AttemptAgrees [0x7A, 0x61, 0x20] (ES.matchAt #[0x7A, 0x61, 0x20] exAstV
       (ES.RER.ofFlags { v := true } (ES.countParens exAstV)) fuel 0)
       (firstMatch exInpU r.node (Utf8.off [0x7A, 0x61, 0x20] 0)) :=
-  lower_attempt_partial_nf exAstV_nf exAstV_supported h exInpU_text 0 (by decide) fuel
+  lower_attempt_partial_nf exAstV_nf exAstV_supported h exInpU_text rfl 0 (by decide) fuel
+
+/-- `/(k)\1\b[^\W\d]/iu` on `Kk\u212a`-like text: case-insensitive literal, back-reference and
+bracket under `iu`. -/
+def exAstI : ES.Node :=
+  .cat [.group 1 none (.char 0x6B), .bref 1, .nwb, .cls true [.esc .W, .esc .d], .dot]
+
+theorem exAstI_nf : normalize exAstI = exAstI := by rfl
+theorem exAstI_supported : supported exAstI (irFlags { i := true, u := true }) exAstI = true := by decide +kernel
+
+def exInpI : Input := { kind := .utf8, bytes := Utf8.text [0x212A, 0x4B, 0x17F, 0x41], unicode := true }
+theorem exInpI_text : Utf8Text exInpI [0x212A, 0x4B, 0x17F, 0x41] := ⟨rfl, rfl, by decide⟩
+
+example (r : Regex) (h : toIR { i := true, u := true } exAstI = .ok r) (fuel : Nat) :
+    AttemptAgrees [0x212A, 0x4B, 0x17F, 0x41] (ES.matchAt #[0x212A, 0x4B, 0x17F, 0x41] exAstI
+      (ES.RER.ofFlags { i := true, u := true } (ES.countParens exAstI)) fuel 0)
+      (firstMatch exInpI r.node (Utf8.off [0x212A, 0x4B, 0x17F, 0x41] 0)) :=
+  lower_attempt_partial_nf exAstI_nf exAstI_supported h exInpI_text rfl 0 (by decide) fuel
+
+/-- `/[\W--[^k]][\P{Lu}&&\w]/iv`: complement, subtraction and intersection of folded sets. -/
+def exAstIV : ES.Node :=
+  .cat [.vcls false .sub [.esc .w, .cls true .union [.c 0x6B]],
+        .vcls true .inter [.prop true 0 0x14C75, .esc .w]]
+
+theorem exAstIV_nf : normalize exAstIV = exAstIV := by rfl
+theorem exAstIV_supported : supported exAstIV (irFlags { i := true, v := true }) exAstIV = true := by
+  decide +kernel
+
+example (r : Regex) (h : toIR { i := true, v := true } exAstIV = .ok r) (fuel : Nat) :
+    AttemptAgrees [0x212A, 0x4B, 0x17F, 0x41] (ES.matchAt #[0x212A, 0x4B, 0x17F, 0x41] exAstIV
+      (ES.RER.ofFlags { i := true, v := true } (ES.countParens exAstIV)) fuel 0)
+      (firstMatch exInpI r.node (Utf8.off [0x212A, 0x4B, 0x17F, 0x41] 0)) :=
+  lower_attempt_partial_nf exAstIV_nf exAstIV_supported h exInpI_text rfl 0 (by decide) fuel
 
 end Regress.Lower
 
 #print axioms Regress.Lower.lower_attempt_partial
 #print axioms Regress.Lower.lower_attempt_partial_nf
+#print axioms Regress.Lower.lower_attempt_ast_partial
+#print axioms Regress.Lower.lower_search_partial
 #print axioms Regress.Lower.attemptAgrees_success
